@@ -27,7 +27,10 @@ CFG = dict(
                 "structured contents; the image read back is compared channel by channel with a copy of the view taken "
                 "before the write. TIFF additionally x {strip, 16x16 tiles, 32x32 tiles} x {none, LZW, deflate, packbits}. "
                 "JPEG at quality 100: dimensions, constant images within one level, smooth gradients within a calibrated "
-                "bound. Observation of bounded executions only: sizes above the grid, other pixel types and other "
+                "bound. Destination-state independence: one destination object (image, any_image holding this or another "
+                "alternative, view of a recycled image) is reused over shrinking, growing, equal and mixed size sequences "
+                "through read_image (all devices), read_and_convert_image, any_image read and read_view, and must equal a "
+                "read of the same bytes into a fresh image after every step. Observation of bounded executions only: sizes above the grid, other pixel types and other "
                 "library versions are not covered."),
     level_note=("trusts the harness's per-pixel comparison and g++ 12/ASan; the third-party codecs are the installed "
                 "system libraries; organisations that a writer rejects at compile time are covered by instantiation "
@@ -37,7 +40,8 @@ CFG = dict(
           "sub-byte types]); inside a case every (w,h) of the grid (quick: {1..9,15,16,17,31,32,33}^2, sub-byte also 24 and "
           "40; thorough: {1..40}^2) is one evaluation = one write_view + read_image + comparison. distinct_nontrivial = "
           "number of (case,w,h) triples, distinct by construction of the enumeration; each is non-trivial (>=1 pixel of "
-          "seeded contents written, read back and compared)."),
+          "seeded contents written, read back and compared). Reuse cases: one per (format, type, api, size order); every "
+          "step of the sequence (8-48 files) is one evaluation."),
     exhaustive={"quick": False, "thorough": False},
     exhaustive_domain={"quick": "all (w,h) in {1..9,15,16,17,31,32,33}^2 per case; contents sampled",
                        "thorough": "all (w,h) in {1..40}^2 per case; contents sampled"},
@@ -58,7 +62,8 @@ CFG = dict(
            for k, name in PROBES],
     runs=[run("c12_p%d" % k, shards=sh, min_cases={"quick": fl, "thorough": fl}, max_restarts=200)
           for k, _, sh, fl in PARTS],
-    require_obs=["sink.ostream", "sink.FILEptr", "sink.filename", "org.planar", "org.planar-stepped", "org.subsampled",
+    require_obs=["reuse.read_image", "reuse.read_and_convert_image", "reuse.any_image", "reuse.read_view", "reuse.bits",
+                 "reuse.order.shrinking", "reuse.order.growing", "reuse.order.equal", "reuse.order.mixed", "sink.ostream", "sink.FILEptr", "sink.filename", "org.planar", "org.planar-stepped", "org.subsampled",
                  "org.raw-padded", "org.rot90", "org.bits.subview", "org.bits.subsampled", "tiffcfg.tile16-lzw",
                  "tiffcfg.tile32-none", "tiffcfg.strip-deflate", "tiffcfg.strip-packbits"],
 )
